@@ -124,6 +124,12 @@ def sym_range(*a):
     return range(*a)
 
 
+def sym_len(x):
+    if hasattr(x, '__symlen__'):
+        return x.__symlen__()
+    return len(x)
+
+
 def quiet_print(*a, **k):
     return None
 
@@ -146,6 +152,7 @@ class Loader:
         b['int'] = Int
         b['float'] = Float
         b['range'] = sym_range
+        b['len'] = sym_len
         b['print'] = quiet_print
         b.update(extra_builtins or {})
         self.b = b
